@@ -5,3 +5,4 @@ import Lace.Props.C19
 #print axioms Lace.C19.runSeq_reset_eq_map
 #print axioms Lace.C19.watch_recheck_eq_check
 #print axioms Lace.C19.stale_table_matters
+#print axioms Lace.C19.watch_session_eq_checks
